@@ -16,7 +16,7 @@ var jsSameUnderBothLoaders = []string{
 	"x = a < b > c;", "x = a < b > -c;", "x = a < b > +c;", "x = a < b >= c;", "x = a < b >> c;", "x = a < b >>> c;",
 	"x = a < (b > (c));", "x = a < b > [c];", "x = a << b > c;", "x = a < b > !c;", "x = a < b > typeof c;", "x = a < b > ~c;",
 	"x = a < b > c.d;", "x = a < b > new c;", "x = a < b > this;", "x = a < b > 1;", "x = a < b > \"s\";", "x = a < b > ++c;",
-	"x = a < b > await;", "x = a < b > {};", "x = a < b > function () {};", "x = a < b > class {};", "x = a < b > void c;", "x = a < b > delete c.d;",
+	"x = a < b > {};", "x = a < b > function () {};", "x = a < b > class {};", "x = a < b > void c;", "x = a < b > delete c.d;",
 	"x = a < b\n> c;", "x = a < b > c < d > e;", "x = a < b || c > d;", "x = a < b && c > (d);", "x = f < g.h > i;", "x = a < b + 1 > (c);",
 	"x = a ? (b) : c => d;", "x = a ? (b) : (c) => d;", "x = a ? b : c ? d : e;", "x = a ? (b, c) : d;", "x = (a) ? (b) : (c);", "x = a ? ({ b }) : c;",
 	"x = a ? (b) : c => d ? e : f;", "x = a ? (b ? c : d) : e => f;", "x = a ? async (b) => c : d;", "x = a ? function (b) { return c } : d;",
@@ -83,7 +83,7 @@ func glueGrid(st *Stats) {
 		for _, src := range jsSameUnderBothLoaders {
 			a, ea := transformText(src, mk(api.LoaderJS))
 			if ea != "" {
-				st.Histogram["grid-js-invalid"]++
+				st.Histogram["grid-js-invalid:"+src]++
 				continue
 			}
 			b, eb := transformText(src, mk(api.LoaderTS))
